@@ -31,12 +31,15 @@ type c13WireArg struct {
 	CbMembers  bool // couchbase membership (else static)
 	SlowGets   bool // the node answers reads of instance documents after 150 ms: a monitor round is always in flight
 	SlowLoad   bool // the node answers reads of checkpoint documents after 120 ms: the first persisted-seqno reports arrive while Open() is still loading
+	Rebalances int  // close / reopen cycles of the stream (stream.Rebalance()) before Close()
 }
 
 type c13WireRes struct {
 	Ready          bool
 	Sent           int
 	Consumed       int
+	RebalancesDone int
+	StoppedAfter   int    // the client stopped by itself after this many rebalance cycles (0 = it did not)
 	Result         string // returned | died: ... | hung
 	ReturnMs       int64
 	Acked          map[uint16]uint64 // highest acknowledged seqno per vBucket before Close()
@@ -235,6 +238,54 @@ func runC13Wire(a c13WireArg) *c13WireRes {
 		res.Notes = append(res.Notes, fmt.Sprintf("%d documents sent, %d consumed before Close()", sent, res.Consumed))
 	}
 
+	// rebalance cycles through the wire: the node answers every CLOSE_STREAM and then sends the end of that stream
+	for k := 1; k <= a.Rebalances && res.StoppedAfter == 0; k++ {
+		st := dcp.VerifStream(d)
+		st.Rebalance()
+		deadline := time.Now().Add(4 * time.Second)
+		for time.Now().Before(deadline) && !(st.IsOpen() && len(w.Node.OpenStreams()) == nvb) {
+			time.Sleep(5 * time.Millisecond)
+		}
+		time.Sleep(60 * time.Millisecond)
+		res.RebalancesDone = k
+		select {
+		case r := <-startDone:
+			res.StoppedAfter = k
+			res.Result = r
+			res.Notes = append(res.Notes, fmt.Sprintf("Start() %s after rebalance cycle %d although nobody called Close()", r, k))
+			return res
+		default:
+		}
+		if !st.IsOpen() {
+			res.Notes = append(res.Notes, fmt.Sprintf("the stream was not open again 4 s after rebalance cycle %d", k))
+			break
+		}
+	}
+	if a.Rebalances > 0 {
+		// the streams the node has now are those of the last reopen: one more document on each must come through
+		for v := uint16(0); v < nvb; v++ {
+			st, err := w.Node.WaitStream(v, 3*time.Second)
+			if err != nil {
+				res.Notes = append(res.Notes, fmt.Sprintf("no stream for vBucket %d after the rebalance cycles: %v", v, err))
+				continue
+			}
+			streams[v] = st
+			_ = st.SnapshotMarker(1, 9, 0)
+			_ = st.Mutation(simnode.Mutation{SeqNo: 5, Cas: 1700000000000000005, Key: []byte(fmt.Sprintf("k%d-5", v)), Value: []byte("{}")})
+			sent++
+		}
+		waitConsumed(sent)
+		res.Sent = sent
+		res.Consumed = cons.count()
+		if res.Consumed != sent {
+			res.Notes = append(res.Notes, fmt.Sprintf("after the rebalance cycles: %d documents sent, %d consumed", sent, res.Consumed))
+		}
+		cons.mu.Lock()
+		for v, s := range cons.acked {
+			res.Acked[v] = s
+		}
+		cons.mu.Unlock()
+	}
 	res.RunningBefore = libraryGoroutines()
 	start := time.Now()
 	d.Close()
